@@ -142,6 +142,23 @@ def build_model():
                          ['PTerm/Model.vo'])
 
 
+def regen_source():
+    """regenerate coq/Gen/PyProofDSL.v from the CURRENT source (statement-level translation, fail closed)"""
+    import sys
+    tdir = os.path.join(C.VERIF, 'translators')
+    if tdir not in sys.path:
+        sys.path.insert(0, tdir)
+    import py_proofdsl
+    try:
+        text = py_proofdsl.generate(C.REPO)
+        C.write_if_changed(os.path.join(C.COQ, 'Gen', 'PyProofDSL.v'), text)
+        return True, ''
+    except SystemExit as e:
+        return False, str(e)
+    except Exception as e:  # noqa: BLE001
+        return False, f'py_proofdsl: {e!r}'
+
+
 def setup():
     build_model()
 
@@ -295,7 +312,13 @@ def run(tier, seed):
         C.write_if_changed(GEN_V, gen_shipped_v(shipped))
 
     # 1. proof stage
+    ok_tr, tr_msg = regen_source()
     P = R.proof_stage()
+    if not ok_tr:
+        # the model could not be regenerated from the current source: nothing is proved about it
+        P['ok'] = False
+        P['log'] = 'translator failed closed: ' + tr_msg
+        P['discharged'] = 0
     proof_broken = not P['ok']
 
     ok, log, mlref = build_model()
@@ -396,6 +419,9 @@ def run(tier, seed):
                           'ProofExp.serialize with one optimize setting, its notation-free twin serialised by the model, both byte '
                           'triples run by the Rust checker; distinct by (expanded proofs, axioms, optimize); non-trivial = >= 2 rule nodes')
     return R.finish(level='proof', trusted_base=C.TRUSTED_COMMON + [
+        'translators/py_proofdsl.py (Python-ast statement-level translator of proof.py / basic_interpreter.py / interpreter.py / '
+        'interpreter_transformer.py / optimizing_interpreters.py -> coq/Gen/PyProofDSL.v, fail closed) and the reading conventions of '
+        'coq/PTerm/PyRt.v (monad of calls reaching the innermost interpreter, objects with open recursion, base_ops)',
         'harness/impl/pterm_runner.py: reifier, notation expansion (the model is about the notation-free twin of a module; the '
         'notation-laden original is tied to it by the Rust verdict and the toolkit verdict only), encoders',
         'harness/rust/harness.rs + rustc build of the current lib.rs (oracle)',
